@@ -56,3 +56,12 @@ func (f *VFSFile) VerifState() VerifVFSState {
 	}
 	return st
 }
+
+// VerifHydration reports whether background hydration is enabled for this
+// file, whether it has completed, and its error if it failed.
+func (f *VFSFile) VerifHydration() (enabled, complete bool, err error) {
+	if f.hydrator == nil {
+		return false, false, nil
+	}
+	return true, f.hydrator.Complete(), f.hydrator.Err()
+}
